@@ -119,6 +119,8 @@ func (w *World) rootV02(p *AbsPolicy) *tufv02.RootMetadata {
 	rm.SetExpires(expires())
 	if p.RootVer > 0 {
 		rm.Version = uint64(p.RootVer)
+	} else if p.RootVer < 0 {
+		rm.Version = 0
 	}
 	rm.Principals = map[string]tuf.Principal{}
 	rm.Roles = map[string]tufv02.Role{}
